@@ -114,7 +114,14 @@ def model_check_acceptor(tier, out):
 
 
 def gen_walk(tier, seed, out):
-    gen = kit.run_tlc("C04_WGen", f"C04_WGen_{tier}")
+    import concurrent.futures as cf
+    with cf.ThreadPoolExecutor(max_workers=2) as ex:
+        fg = ex.submit(kit.run_tlc, "C04_WGen", f"C04_WGen_{tier}")
+        # beyond the exhaustive bounds: random deeper trees, reproducible from the seed
+        fr = (ex.submit(kit.run_tlc, "C04_WGen", "C04_WGen_random", workers=4, simulate="num=1200",
+                        depth=80, seed=seed) if tier == "thorough" else None)
+        gen = fg.result()
+        rnd = fr.result() if fr else None
     kit.require_clean(gen, "C04 traversal generation / model check")
     out.add_tlc(gen)
     printed = gen.printed()
@@ -123,10 +130,7 @@ def gen_walk(tier, seed, out):
     if not trees or len(ucls) != 1:
         raise kit.MachineryError("C04_WGen printed no trees / no user class table")
     nrand = 0
-    if tier == "thorough":
-        # beyond the exhaustive bounds: random deeper trees, reproducible from the seed
-        rnd = kit.run_tlc("C04_WGen", "C04_WGen_random", workers=4, simulate="num=2000", depth=80,
-                          seed=seed)
+    if rnd is not None:
         kit.require_clean(rnd, "C04 random traversal generation (-simulate)")
         out.add_tlc(rnd)
         seen = {json.dumps(t["tree"], sort_keys=True) for t in trees}
@@ -174,7 +178,7 @@ def gen_hist(tier, seed, out):
     printed = res.printed()
     nexh = sum(1 for p in printed if "calls" in p)
     if tier == "thorough":
-        rnd = kit.run_tlc("C04_Hist", "C04_Hist_random", workers=4, simulate="num=1500", depth=8, seed=seed)
+        rnd = kit.run_tlc("C04_Hist", "C04_Hist_random", workers=4, simulate="num=500", depth=8, seed=seed)
         kit.require_clean(rnd, "C04_Hist random histories (-simulate)")
         out.add_tlc(rnd)
         printed += rnd.printed()
